@@ -653,7 +653,10 @@ impl<K: CacheKey + 'static> AsyncCache<K> for DiskCache<K> {
                 .fetch_sub(entry.size_bytes as u64, Ordering::Relaxed);
             Ok(true)
         } else {
-            Ok(false)
+            // Not indexed by this instance, but get() serves a file found on disk
+            // (written by an earlier instance): removing the key must delete it too.
+            // It was never counted, so the counters stay as they are.
+            Ok(fs::remove_file(self.get_file_path(key)).is_ok())
         }
     }
 
